@@ -199,6 +199,7 @@ def plan(tier, seed):
         jobs += [('txt3', a, b) for a in range(n) for b in range(n)]
     jobs += [('tagmix', k, 16, q) for k in range(16)]
     jobs += [('docs', k, 16, 2 if q else 3) for k in range(16)]
+    jobs += [('colltags', k, 8) for k in range(8)]
     jobs += [('trees', k, 32, 4 if q else 5, 1 if q else 2) for k in range(32)]
     jobs += [('fold', 3 if q else 5, k, 32) for k in range(32)]
     for i in range(len(SHAPES)):
@@ -298,6 +299,42 @@ def run_job(job, T):
                                     for o in ({}, {'canonical': True}):
                                         roundtrip(T, 'tags', ds, o)
         T.sample('tags', {'events': ds})
+    elif kind == 'colltags':
+        # tagged collections (implicit and not) in every position, next to tagged / untagged neighbours: per-node emitter
+        # state (prepared tag, prepared anchor, analysis) must not leak from one node to the next
+        _, k, np_ = job
+        ctags = [None, '!ct', 'tag:yaml.org,2002:seq', 'tag:yaml.org,2002:map', 'tag:e.com,2000:c']
+        ntags = [(None, (True, False)), ('!nt', (False, False)), ('tag:yaml.org,2002:str', (True, False)), ('tag:yaml.org,2002:int', (False, False)), ('!', (True, True))]
+        i = 0
+        ds = None
+        for ctag in ctags:
+            for cimp in (True, False):
+                if ctag is None and not cimp:
+                    continue
+                for coll in ('seq0', 'map0', 'seq1', 'map1'):
+                    for flow in (False, True):
+                        for canch in (None, 'c'):
+                            for ntag, nimp in ntags:
+                                for nanch in (None, 'n'):
+                                    i += 1
+                                    if i % np_ != k:
+                                        continue
+                                    if coll == 'seq0':
+                                        c = E.seq([], flow=True, anchor=canch, tag=ctag, implicit=cimp)
+                                    elif coll == 'map0':
+                                        c = E.mapping([], flow=True, anchor=canch, tag=ctag, implicit=cimp)
+                                    elif coll == 'seq1':
+                                        c = E.seq([[E.S('i')]], flow=flow, anchor=canch, tag=ctag, implicit=cimp)
+                                    else:
+                                        c = E.mapping([([E.S('i')], [E.S('j')])], flow=flow, anchor=canch, tag=ctag, implicit=cimp)
+                                    node = [E.S('v', tag=ntag, implicit=nimp, anchor=nanch)]
+                                    node2 = E.seq([[E.S('w')]], tag=ntag if ntag not in ('!', None) else '!st', implicit=False, flow=True)
+                                    for body in (E.mapping([(c, node)]), E.mapping([(c, node2)], flow=True), E.mapping([(node, c), ([E.S('z', tag='!zt', implicit=(False, False))], node)]),
+                                                 E.seq([c, node, c if canch is None else [('ALIAS', canch)]]), E.mapping([(c, c if canch is None else node)])):
+                                        ds = E.stream(E.doc(body))
+                                        for o in ({}, {'canonical': True}, {'width': 5}):
+                                            roundtrip(T, 'collection-tags', ds, o)
+        T.sample('collection-tags', {'events': ds})
     elif kind == 'docs':
         _, k, np_, nd = job
         opts = opt_sets(1)
